@@ -710,4 +710,3 @@ func ruleKEYSEP(c *Checker) {
 	}
 	c.floor("KEYSEP", 6)
 }
-
